@@ -131,9 +131,11 @@ def showBM (bm : BM) : List String :=
   [s!"M rsize={bm.rsize} inputs={bm.topo.inputs} outputs={bm.topo.outputs} ncp={bm.cps.length} procs={",".intercalate (bm.procs.map toString)}"] ++
   (bm.cps.zipIdx.flatMap fun (cp, i) =>
     let a := cp.arch
-    [s!"C {i} rsize={a.rsize} r={a.r} n={a.n} m={a.m} l={a.l} o={a.o} mode={showMode a.mode} ws={a.wordSize} ops={",".intercalate a.ops} shared={if cp.shared then 1 else 0}"] ++
+    [s!"C {i} rsize={a.rsize} r={a.r} n={a.n} m={a.m} l={a.l} o={a.o} mode={showMode a.mode} ws={a.wordSize} ops={",".intercalate a.ops} shared={if cp.shared then 1 else 0} mw={if cp.mwDecl != 0 then cp.mwDecl else a.maxWord} sc={if cp.sharedC.isEmpty then "-" else ";".intercalate cp.sharedC}"] ++
     cp.prog.map (fun w => s!"W {i} {toString01 w}") ++ cp.data.map (fun w => s!"D {i} {toString01 w}")) ++
-  ["II " ++ showBonds bm.topo.iin, "IO " ++ showBonds bm.topo.iout,
+  ["SO " ++ (if bm.sos.isEmpty then "-" else " ".intercalate bm.sos),
+   "SL " ++ (if bm.solinks.isEmpty then "-" else " ".intercalate (bm.solinks.map fun l => "[" ++ ",".intercalate (l.map toString) ++ "]")),
+   "II " ++ showBonds bm.topo.iin, "IO " ++ showBonds bm.topo.iout,
    "LK " ++ (if bm.topo.links.isEmpty then "-" else " ".intercalate (bm.topo.links.map fun l => match l with | some j => toString j | none => "-1")),
    "E"]
 
@@ -156,11 +158,18 @@ def bmLine (bm : BM) (line : String) : BM :=
     let a : Arch := { rsize := num "rsize", r := num "r", n := num "n", m := num "m", l := num "l", o := num "o",
                       mode := parseModeA ((kv fs "mode").getD "ha"), wordSize := num "ws",
                       ops := commaList ((kv fs "ops").getD "") }
-    { bm with cps := bm.cps ++ [{ arch := a, prog := [], shared := num "shared" == 1 }] }
+    let sc := (kv fs "sc").getD "-"
+    { bm with cps := bm.cps ++ [{ arch := a, prog := [], shared := num "shared" == 1, mwDecl := num "mw",
+                                  sharedC := if sc = "-" then [] else sc.splitOn ";" }] }
   | ["W", i, w] =>
     { bm with cps := bm.cps.modify (nat! i) fun cp => { cp with prog := cp.prog ++ [ofString01 w] } }
   | ["D", i, w] =>
     { bm with cps := bm.cps.modify (nat! i) fun cp => { cp with data := cp.data ++ [ofString01 w] } }
+  | "SO" :: xs => { bm with sos := if xs = ["-"] then [] else xs }
+  | "SL" :: xs =>
+    { bm with solinks := if xs = ["-"] then [] else xs.map fun x =>
+        let inner := ((x.drop 1).dropEnd 1).toString
+        if inner = "" then [] else (inner.splitOn ",").map nat! }
   | "II" :: bs => { bm with topo := { bm.topo with iin := if bs = ["-"] then [] else bs.map parseBond } }
   | "IO" :: bs => { bm with topo := { bm.topo with iout := if bs = ["-"] then [] else bs.map parseBond } }
   | "LK" :: ls =>
